@@ -138,5 +138,6 @@ func c03(c *core.Ctx, r *core.Report) {
 	treeKeyRule(c, r, "R03.seenkey", "backward states with different outer callers are merged")
 	c03param(c, r)
 	apGrammarRule(c, r, "R03.apgrammar", "analysis/backtrace")
+	ensureRule(c, r, "R03.ensure", "analysis/backtrace", "Visitor.visit", 8, "In", "Out")
 	memoRule(c, r, "R03.memo", func(fn *ssa.Function, rel string) bool { return rel == "analysis/backtrace" }, "stale traversal state hides traces")
 }
